@@ -33,6 +33,7 @@ use std::sync::Arc;
 use std::time::Duration;
 
 pub use c01net::c01_net;
+pub use c01net::first_diff as first_diff_field;
 
 type RespFields = (u32, u16, u16, Vec<u8>, Vec<u8>);
 
